@@ -351,7 +351,53 @@ def execution_slice(path, line):
     return labels
 
 
-def split_trace(trace, max_lines=25000):
+CRASH_LINE = ('{"e":"op","lbl":{"op":"unknown","c":0,"d":0,"pos":0,"n":0,"v":0,"src":0,"it":"","vs":[],"k":0},'
+              '"ret":{"k":"crash","i":0,"s":"corrupt-record"},"obs":[],"prims":[],"allocs":[],"gm":0,"te":0}\n{"e":"abort"}\n')
+
+
+def sanitize_trace(trace):
+    """A recording whose bytes are not well formed (the implementation corrupted the recorder's memory) is turned into
+    a crash of that execution: the malformed line and the rest of its execution are replaced by a crash event."""
+    bad = False
+    with open(trace, 'rb') as f:
+        for raw in f:
+            try:
+                ln = raw.decode('utf-8')
+            except UnicodeDecodeError:
+                bad = True
+                break
+            if not (ln.startswith('{"e":') and ln.rstrip('\n').endswith('}')):
+                bad = True
+                break
+    if not bad:
+        return 0
+    fixed = 0
+    tmp = trace + '.san'
+    with open(trace, 'rb') as f, open(tmp, 'w') as out:
+        skipping = False
+        for raw in f:
+            try:
+                ln = raw.decode('utf-8')
+                ok = ln.startswith('{"e":') and ln.rstrip('\n').endswith('}')
+                if ok:
+                    json.loads(ln)
+            except (UnicodeDecodeError, ValueError):
+                ok = False
+            if skipping:
+                if ok and (ln.startswith('{"e":"reset"') or ln.startswith('{"e":"abort"')):
+                    skipping = False
+                continue
+            if ok:
+                out.write(ln)
+            else:
+                out.write(CRASH_LINE)
+                fixed += 1
+                skipping = True
+    os.replace(tmp, trace)
+    return fixed
+
+
+def split_trace(trace, max_lines=25000, max_bytes=24000000):
     """Split a recording at execution boundaries into chunks that TLC validates independently (each chunk starts with
     the config line).  Returns [(path, offset)] where offset + line-in-chunk - 1 = line in the original file."""
     parts = []
@@ -370,9 +416,11 @@ def split_trace(trace, max_lines=25000):
                 cur.write(cfg)
                 parts.append((path, lineno - 2))
                 n = 0
+                nbytes = 0
             cur.write(line)
             n += 1
-            if n >= max_lines and (line.startswith('{"e":"reset"') or line.startswith('{"e":"abort"')):
+            nbytes += len(line)
+            if (n >= max_lines or nbytes >= max_bytes) and (line.startswith('{"e":"reset"') or line.startswith('{"e":"abort"')):
                 cur.close()
                 cur = None
         if cur is not None:
@@ -382,6 +430,7 @@ def split_trace(trace, max_lines=25000):
 
 def validate_split(cwd, module, cfg, trace, max_lines=25000, workers=4, timeout=3600):
     """validate() over chunks of the trace, merged: line numbers refer to the original file, stats are summed"""
+    sanitize_trace(trace)
     parts = split_trace(trace, max_lines)
 
     def one(po):
